@@ -1,4 +1,4 @@
-module verifharness
+module removeallreplay
 
 go 1.22
 
